@@ -46,6 +46,14 @@ Section Source.
   Theorem inner_steps_is_source : forall b, gen_inner_steps NN b = inner NN (build NN fpow b).
   Proof. reflexivity. Qed.
 
+  (* BuildOptimiser::build as a whole (every field of the MCOptimiser it returns, the seed apart) *)
+  Theorem build_is_source : forall b, gen_build NN fpow b = build NN fpow b.
+  Proof.
+    intros b. unfold gen_build, build. cbv zeta.
+    destruct (b_kt_ratio NN b) as [r|]; [reflexivity|].
+    destruct (b_kt_finish NN b) as [fin|]; reflexivity.
+  Qed.
+
   Theorem loops_is_source : forall c, gen_loops NN c = loops_of (steps NN c) (inner NN c).
   Proof. reflexivity. Qed.
 
@@ -126,6 +134,21 @@ Section Source.
     unfold gen_final_ok. destruct (score (calls NN st) (params NN st)); reflexivity.
   Qed.
 
+  (* the three operations of the loop body on the world are StandardBasis's methods AS TRANSLATED FROM src/basis.rs
+     (set_sampled = set_value o sample; set_value remembers the current value and stores the clamped one; reset_value
+     stores the remembered one), applied to the drawn handle and the cell it points to *)
+  Theorem world_operations_are_source : forall (w : world NN) idx h step g,
+    nth_error (w_handles NN w) idx = Some h ->
+    w_set_sampled NN w idx step g =
+      (let '(old', v') := gen_set_sampled NN (h_min NN h) (h_max NN h) (h_old NN h) (get_cell NN (w_params NN w) (h_cell NN h)) step g in
+       Some (mkWorld (set_nth (w_params NN w) (h_cell NN h) v') (set_nth (w_handles NN w) idx (with_old NN h old')) (w_calls NN w)))
+    /\ w_reset NN w idx =
+      (let '(_, v') := gen_reset_value NN (h_old NN h) (get_cell NN (w_params NN w) (h_cell NN h)) in
+       Some (mkWorld (set_nth (w_params NN w) (h_cell NN h) v') (w_handles NN w) (w_calls NN w))).
+  Proof.
+    intros w idx h step g H. unfold w_set_sampled, w_reset. rewrite H. split; reflexivity.
+  Qed.
+
   (* the whole tail of the outer loop's body (cooling, convergence count, early return, step-ratio update), translated as
      a state update of (kt, convergence_count, step_ratio) with an early-return flag, is the model's end_loop *)
   Theorem end_loop_is_source : forall c st,
@@ -170,6 +193,9 @@ Section Source.
   Qed.
 
   (* ---- src/cell.rs *)
+  Theorem cell_sides_are_source : forall c, gen_cell_a NN c = cell_a NN c /\ gen_cell_b NN c = cell_b NN c.
+  Proof. intros c. split; reflexivity. Qed.
+
   Theorem cell_area_is_source : forall c, gen_cell_area NN c = cell_area NN c.
   Proof. reflexivity. Qed.
 
@@ -212,6 +238,11 @@ Section Source.
   (* ---- src/shape/molecular_shape2.rs *)
   Theorem mol_trimer_is_source : forall fsin fcos pi_ radius angle distance,
     gen_mol_trimer NN fsin fcos pi_ radius angle distance = mol_trimer NN pi_ fsin fcos radius angle distance.
+  Proof. reflexivity. Qed.
+
+  (* ---- src/shape/lj_shape.rs: LJShape2::from_trimer (three particles, sigma = 2 r, epsilon from Default, cutoff 3.5) *)
+  Theorem lj_trimer_is_source : forall fsin fcos pi_ radius angle distance,
+    gen_lj_trimer NN fsin fcos pi_ radius angle distance = lj_trimer NN pi_ fsin fcos (nofZ 7 / nofZ 2) radius angle distance.
   Proof. reflexivity. Qed.
 
   Theorem overlap_area_is_source : forall r d, gen_overlap_area NN facos r d = overlap_area NN facos r d.
